@@ -1561,6 +1561,13 @@ class Interp:
     def e_Call(self, e):
         if source.is_dropped_call(e):
             return None
+        if self.spec_mode and isinstance(e.func, ast.Name) and e.func.id == 'ite' and len(e.args) == 3 and not e.keywords:
+            # specification-level conditional with a *concrete* condition: only the chosen branch is meaningful
+            # (ite(is_none(x), a, f(x)) must not evaluate f(None)); symbolic conditions go through the builtin
+            c = self.eval(e.args[0])
+            if isinstance(c, bool):
+                return self.eval(e.args[1] if c else e.args[2])
+            return self.call(self.eval(e.func), [c, self.eval(e.args[1]), self.eval(e.args[2])], {})
         f = self.eval(e.func)
         args = []
         for a in e.args:
